@@ -8,7 +8,7 @@ import numpy as np
 from harness import tlc, gen
 from harness.common import enc, enc_seq, workdir, write_ndjson, Report
 
-LABELS = {1: "m1", 2: "my label 2"}
+LABELS = {1: "m1", 2: "  my label 2 "}        # spaces inside and at both ends
 DTUS = [1, 100, 9999, 10000, 10625, 123456, 999999, 1000000]
 MICRO = [-1500000, -1, 0, 1, 499999, 123456789]
 LOADERS = ["load_values_and_dt", "load_signal(signal)", "load_signal(acc_sig)", "load_sig", "load_sig(m=2)", "load_sig(m=-3)",
@@ -126,7 +126,7 @@ def build_traces(wd, path, tier, seed):
             x = np.round(x, 6) + rng.choice([0.5e-6, -0.5e-6, 0.0], size=n)       # close to rounding boundaries
         dt = float([10.0 ** rng.uniform(-4, 2), 1.0, 1.5, 10.0, 100.0, 0.01, 0.9999, 0.0001, 2.0][tid % 9])
         dt = min(max(dt, 1e-4), 100.0)
-        label = ["m1", "rec 7 east", "a b  c"][tid % 3]
+        label = ["m1", "rec 7 east", "a b  c", "  padded column name", "station 12 EW   ", "x"][int(rng.integers(6))]
         cls = eqsig.AccSignal if tid % 2 else eqsig.Signal
         if tid % 4 == 3:
             loader.save_values_and_dt(ffp, x if tid % 8 == 3 else x.tolist(), dt, label)     # array-level saver, positional order
